@@ -34,7 +34,7 @@ def shards(tier):
 
 def required_counters(tier):
     return {'judged:construct': 100, 'judged:getitem': 100, 'judged:addsub': 100, 'judged:separation': 100,
-            'judged:rotate': 100, 'judged:copy': 50, 'judged:sky-roundtrip': 50, 'judged:iter': 50}
+            'judged:rotate': 100, 'judged:copy': 50, 'judged:sky-roundtrip': 50, 'judged:iter': 50, 'sky-sip-wcs': 20, 'sky-sip-modes-differ': 10}
 
 
 LANES = ['construct', 'construct-bad', 'getitem', 'iterlen', 'addsub', 'separation', 'rotate', 'rotate', 'copy', 'eq', 'sky']
@@ -358,6 +358,15 @@ def run_case(case, obs):
     elif lane == 'sky':
         prng = random.Random(case['rs'])
         ws = gen.wcs_spec(prng)
+        sip = prng.random() < 0.35
+        if sip:
+            # a distorted (SIP) celestial WCS: 'all' includes the distortion, 'wcs' is the core transformation only
+            ws = gen.wcs_spec(prng, proj='TAN', scale=gen.logu(prng, 1e-5, 1e-3))
+            h = ws['hdr']
+            h['CTYPE1'], h['CTYPE2'] = h['CTYPE1'] + '-SIP', h['CTYPE2'] + '-SIP'
+            h.update({'A_ORDER': 2, 'B_ORDER': 2, 'A_2_0': prng.uniform(-2e-5, 2e-5), 'A_0_2': prng.uniform(-2e-5, 2e-5), 'A_1_1': prng.uniform(-2e-5, 2e-5),
+                      'B_2_0': prng.uniform(-2e-5, 2e-5), 'B_0_2': prng.uniform(-2e-5, 2e-5), 'B_1_1': prng.uniform(-2e-5, 2e-5)})
+            obs.count('sky-sip-wcs')
         w = S.build(ws)
         shape = sx if sx != (0, 3) else (4,)
         x = w.wcs.crpix[0] + nrng.uniform(-300, 300, shape)
@@ -373,10 +382,16 @@ def run_case(case, obs):
                 if not np.all(finite):
                     obs.skip(int(np.size(finite) - finite.sum()), 'sky-offsky')
                 d = np.hypot(np.asarray(back.x) - np.asarray(x), np.asarray(back.y) - np.asarray(y))
-                ok = np.shape(back.x) == np.shape(x) and bool(np.all(d[finite] <= 1e-7)) if np.ndim(d) else (not finite or d <= 1e-7)
+                tol_px = 1e-7 if not (sip and mode == 'all') else 1e-5        # 'all' on a distorted WCS inverts iteratively (astropy tolerance 1e-4 px by default is documented; observed << 1e-5)
+                ok = np.shape(back.x) == np.shape(x) and bool(np.all(d[finite] <= tol_px)) if np.ndim(d) else (not finite or d <= tol_px)
                 obs.check(bool(ok), 'sky-roundtrip', f'from_sky(to_sky(p)) moved by up to {np.max(d) if np.size(d) else 0:.3g} px '
                           f'(origin={origin}, mode={mode}, {ws["proj"]}, scale {ws["scale"]:.3g})', 'sky-roundtrip')
         # default origin is 0: equals wcs.pixel_to_world
+        if sip:
+            # the two modes really differ on a distorted WCS (otherwise the lane would not exercise `mode`)
+            a_, w_ = p.to_sky(w, mode='all'), p.to_sky(w, mode='wcs')
+            if np.size(x) and np.max(np.asarray(a_.separation(w_).deg)) > 0:
+                obs.count('sky-sip-modes-differ')
         sk0 = p.to_sky(w)
         ref = w.pixel_to_world(x, y)
         sep = sk0.separation(ref).deg
